@@ -26,16 +26,17 @@ namespace CV.C08
 /-! ## L1: schema of the tag-driven formats -/
 
 inductive Fmt where
-  | proto | msgpack | msgpackraft | json | query
+  | proto | msgpack | msgpackraft | json | query | snapshot
   deriving DecidableEq, Repr
 
 def Fmt.name : Fmt → String
   | .proto => "proto" | .msgpack => "msgpack" | .msgpackraft => "msgpackraft" | .json => "json" | .query => "query"
+  | .snapshot => "snapshot"
 
 def Fmt.ofString? (s : String) : Option Fmt :=
   if s == "proto" then some .proto else if s == "msgpack" then some .msgpack
   else if s == "msgpackraft" then some .msgpackraft else if s == "json" then some .json
-  else if s == "query" then some .query else none
+  else if s == "query" then some .query else if s == "snapshot" then some .snapshot else none
 
 /-- the struct-tag driven formats: `some true` = JSON names, `some false` = codec names -/
 def Fmt.tagged : Fmt → Option Bool
@@ -599,9 +600,17 @@ def showOpts (po : PinOptions) (pre : String) : KVs :=
     (pre ++ "Metadata", showMeta po.metadata), (pre ++ "PinUpdate", showCidOpt po.pinUpdate),
     (pre ++ "Origins", showList (po.origins.map (·.tok))) ]
 
-def showPin (p : Pin) : KVs :=
-  showOpts p.opts "PinOptions." ++
-  [ ("Cid", showCidOpt p.cid), ("Type", toString p.type), ("Allocations", showList p.allocs),
-    ("MaxDepth", toString p.maxDepth), ("Reference", match p.reference with | none => "nil" | some r => r) ]
+def showPinP (pre : String) (p : Pin) : KVs :=
+  showOpts p.opts (pre ++ "PinOptions.") ++
+  [ (pre ++ "Cid", showCidOpt p.cid), (pre ++ "Type", toString p.type), (pre ++ "Allocations", showList p.allocs),
+    (pre ++ "MaxDepth", toString p.maxDepth), (pre ++ "Reference", match p.reference with | none => "nil" | some r => r) ]
+
+def showPin (p : Pin) : KVs := showPinP "" p
+
+/-- a state dump (dsstate.Marshal → Unmarshal → List): every pin through the protobuf form, the CID through the
+    datastore key. The harness lists the pins sorted by CID on both sides. A pin the store cannot
+    deserialize is skipped by `List`. -/
+def snapshotRoundtrip (pins : List Pin) : List Pin :=
+  pins.filterMap fun p => match protoRoundtrip p with | .ok q => some q | _ => none
 
 end CV.C08
